@@ -17,7 +17,7 @@ fn digits(bits: u8, k: usize, v: u128) -> Vec<u8> {
 fn kmer_order<C: CI + Ord, const K: usize, S: KS + Ord>(ctx: &mut Ctx) {
     let a = C::alpha();
     let name = C::NAME;
-    if ctx.lite && !ctx.mine(K) {
+    if ctx.lite && !ctx.mine_group(K) {
         return;
     }
     let kb = K * a.bits as usize;
@@ -99,7 +99,7 @@ fn kmer_order<C: CI + Ord, const K: usize, S: KS + Ord>(ctx: &mut Ctx) {
 fn minimiser<C: CI + Ord, const K: usize, S: KS + Ord>(ctx: &mut Ctx) {
     let a = C::alpha();
     let name = C::NAME;
-    if ctx.lite && !ctx.mine(K + 1) {
+    if ctx.lite && !ctx.mine_group(K + 1) {
         return;
     }
     let noff = n_offsets(a.bits);
@@ -264,7 +264,7 @@ fn seq_order<C: CI>(ctx: &mut Ctx) {
 fn seq_vs_kmer<C: CI + Ord, const K: usize, S: KS + Ord>(ctx: &mut Ctx) {
     let a = C::alpha();
     let name = C::NAME;
-    if ctx.lite && !ctx.mine(K + 2) {
+    if ctx.lite && !ctx.mine_group(K + 2) {
         return;
     }
     ctx.group(&format!("{name}/seq-vs-kmer/K{K}"), |ctx| {
@@ -335,6 +335,21 @@ fn readme(ctx: &mut Ctx) {
 
 fn main() {
     run_main("C10", |ctx| {
+        ctx.first_use_race(3, |t| {
+            let d: Seq<Dna> = "ACGTTGCAACGTACGTACGTACGTACGTACGTTTGAC".try_into().unwrap();
+            let i: Seq<Iupac> = "ACGTRYSWKMBDHVN-ACGT".try_into().unwrap();
+            let mut ks: Vec<Kmer<Dna, 7>> = d[t..].kmers::<7>().collect();
+            ks.sort();
+            let mut ss: Vec<Seq<Iupac>> = i.windows(4 + t).map(|w| w.to_owned()).collect();
+            ss.sort();
+            (
+                ks.iter().map(|k| k.to_string()).collect::<Vec<String>>(),
+                d.kmers::<9>().min().map(|k| k.to_string()),
+                d.kmers::<9>().max().map(|k| usize::from(&k)),
+                ss.iter().map(|s| s.to_string()).collect::<Vec<String>>(),
+                d.cmp(&d[..].to_owned()),
+            )
+        });
         for_each_codec!(seq_order, ctx);
         readme(ctx);
         if ctx.lite {
